@@ -196,6 +196,13 @@ def _const_str(ctx, name):
 
 
 def _val(v, params):
+    # a named constant the evaluator resolved (`SERDE` := "serde"): keep the name — namespaces are identified by it, and
+    # lookup_closed turns argument-name constants into their string
+    c0 = v
+    while isinstance(c0, dict) and c0.get('k') in ('ref', 'deref', 'paren'):
+        c0 = c0.get('v')
+    if isinstance(c0, dict) and c0.get('k') == 'var' and c0.get('const') and c0.get('name'):
+        return ('const', str(c0['name']))
     v0 = vt.unvar(v)
     # the loop variable of `for ns in namespaces` (a parameter holding a list): one value per element at the call site
     if isinstance(v0, dict) and v0.get('k') == 'elem':
